@@ -7,6 +7,8 @@
 From Coq Require Import ZArith QArith List Bool Lia.
 Import ListNotations.
 From Inf Require Import model.RepexM proofs.RepexP proofs.FracP.
+From Inf Require model.PermM.
+From Inf Require Import model.MatchM proofs.MatchP proofs.BridgeMatchP proofs.BridgeFracP proofs.BridgeInfRetisP.
 Open Scope nat_scope.
 
 (* one completed step credits to column c exactly the entries of P in that column over idle
@@ -54,8 +56,36 @@ Theorem C04_picks_do_not_credit : forall f o f',
 Proof. exact step_pick_FInv. Qed.
 Print Assumptions C04_picks_do_not_credit.
 
+(* ------------------------------------------------------------------ without the hypothesis on P
+   (proofs/BridgeFracP.v, proofs/BridgeInfRetisP.v).  [ExactP s P]: P has full-length rows, is zero on
+   busy rows/columns and equals the permanent ratios of the idle block; [Pexact]: every completed
+   step of the run used such a P on a state with non-zero permanent (with C05's invariant the
+   permanent is non-zero by itself: [Pexact_m]). *)
+Theorem C04_conservation_exact_P : forall ops f, InvF f -> FInv f -> Pexact f ops ->
+  forall c f' k, idle_steps c f ops = Some (f', k) ->
+  (total c f' == total c f + inject_Z (Z.of_nat k))%Q /\ FInv f' /\ InvF f'.
+Proof. exact conservation_exactP. Qed.
+Print Assumptions C04_conservation_exact_P.
+
+Theorem C04_conservation_certified : forall ops f fe, InvM f -> FInv f -> run_m f ops = Some fe -> Pexact_m f ops ->
+  forall c f' k, idle_steps c f (map fst ops) = Some (f', k) ->
+  (total c f' == total c f + inject_Z (Z.of_nat k))%Q /\ FInv f' /\ InvF f'.
+Proof. exact conservation_certified. Qed.
+Print Assumptions C04_conservation_certified.
+
+(* with the P that the model of the code (inf_retis, property C02) computes on a state of the
+   reachable family: one completed step credits exactly one unit to every idle column *)
+Theorem C04_step_unit_code_P : forall rp f k acc rws P f' rows b0 lk' c,
+  InvM f -> FInv f -> step f (OpTreat k acc rws P) = Some f' ->
+  InFamily (core f') rows b0 lk' ->
+  PermM.inf_retis rp 1 (WQ (core f')) (locks (core f')) = Some P ->
+  (total c f' == total c f + if is_locked (core f') c then 0 else 1)%Q.
+Proof. exact treat_unit_infretis_matchable. Qed.
+Print Assumptions C04_step_unit_code_P.
+
 (* non-vacuity: a 3-ensemble system, a zero swap and a second job, completions out of order
-   with the exact permanent ratios as P *)
+   with doubly stochastic matrices as P (examples with the exact permanent ratios and with the P
+   computed by the model of the code are bridge_ex4_* and bridge_ex3_* in proofs/Bridge*.v) *)
 Definition ex4 : fstate :=
   mkFS (mkR [[1;0;0;0]; [0;1;0;0]; [0;1;1;0]; [0;0;0;0]]%Z [0;1;2;0] [false;false;false;true] [] 3)
        [(0, [0;0;0;0]%Q); (1, [0;0;0;0]%Q); (2, [0;0;0;0]%Q)] [] 0.
